@@ -35,7 +35,8 @@ CONSTANTS Starts,       \* set of subsets of {"a","b"}: who has put the query me
           MaxAuth,      \* Authenticate calls that start an SMP run, in total
           Secrets,      \* secret tokens b's user may hold; a's user holds "s1"
           Questions,    \* subset of {0,1}: SMP started without / with a question
-          AllowEnd      \* may a user call End (once in total)
+          AllowEnd,     \* may a user call End (once in total)
+          MaxRequery    \* query messages a user may send again while encrypted (re-keying), in total
 
 Parties == {"a", "b"}
 Peer(p) == IF p = "a" THEN "b" ELSE "a"
@@ -288,7 +289,8 @@ Init ==
   /\ sent = [p \in Parties |-> <<>>]
   /\ dlv = [p \in Parties |-> <<>>]
   /\ smpev = [p \in Parties |-> <<>>]
-  /\ bud = [data |-> [p \in Parties |-> MaxData], faults |-> MaxFaults, auth |-> MaxAuth, end |-> IF AllowEnd THEN 1 ELSE 0]
+  /\ bud = [data |-> [p \in Parties |-> MaxData], faults |-> MaxFaults, auth |-> MaxAuth, end |-> IF AllowEnd THEN 1 ELSE 0,
+            requery |-> MaxRequery]
   /\ last = [act |-> "init", p |-> "a", arg |-> 0, body |-> 0, encf |-> FALSE, chg |-> "none", err |-> FALSE,
              outs |-> <<>>, enc |-> [q \in Parties |-> FALSE]]
 
@@ -362,6 +364,18 @@ UserAuth(p, q) ==
           /\ bud' = [bud EXCEPT !.auth = @ - 1]
   /\ UNCHANGED <<hi, nf, sec, sent>>
 
+(* p's user sends the query message again while the conversation is encrypted (asks the peer to re-key).  The peer's
+   Receive resets its key ids at once (reset()), before the new AKE has completed: outside the property's scope
+   (every conversation of the property starts from plaintext), explored in the Requery configurations only. *)
+UserQuery(p) ==
+  /\ bud.requery > 0
+  /\ cv[p].st = "enc"
+  /\ net' = [net EXCEPT ![Peer(p)] = Append(@, Wire(1, 1, QueryMsg))]
+  /\ bud' = [bud EXCEPT !.requery = @ - 1]
+  /\ last' = [act |-> "query", p |-> p, arg |-> 0, body |-> 0, encf |-> FALSE, chg |-> "none", err |-> FALSE,
+              outs |-> <<>>, enc |-> [q \in Parties |-> cv[q].st = "enc"]]
+  /\ UNCHANGED <<cv, hi, nf, sec, sent, dlv, smpev>>
+
 (* The network loses, repeats or modifies the message at the head of p's channel. *)
 Fault(kind, p, pos) ==
   /\ bud.faults > 0 /\ kind \in FaultKinds /\ net[p] # <<>>
@@ -377,7 +391,7 @@ Fault(kind, p, pos) ==
   /\ UNCHANGED <<cv, hi, nf, sec, sent, dlv, smpev>>
 
 Next ==
-  \/ \E p \in Parties : Deliver(p) \/ UserSend(p) \/ UserEnd(p)
+  \/ \E p \in Parties : Deliver(p) \/ UserSend(p) \/ UserEnd(p) \/ UserQuery(p)
   \/ \E p \in Parties, q \in {0, 1} : UserAuth(p, q)
   \/ \E p \in Parties, k \in {"drop", "dup", "tamper"}, pos \in 0..8 : Fault(k, p, pos)
 
@@ -394,7 +408,7 @@ IsPrefix(s, t) == Len(s) <= Len(t) /\ \A i \in 1..Len(s) : s[i] = t[i]
 RECURSIVE IsSubSeq(_, _)
 IsSubSeq(s, t) == IF s = <<>> THEN TRUE ELSE IF t = <<>> THEN FALSE
                   ELSE IF Head(s) = Head(t) THEN IsSubSeq(Tail(s), Tail(t)) ELSE IsSubSeq(s, Tail(t))
-Ended == bud.end = 0 /\ AllowEnd
+Ended == (bud.end = 0 /\ AllowEnd) \/ bud.requery < MaxRequery
 
 (* O1: from a one-sided or simultaneous start both sides reach the encrypted state (no faults, no End). *)
 BothEncrypted == <>[](Enc("a") /\ Enc("b"))
@@ -403,9 +417,14 @@ QuietMeansEncrypted == (Quiet /\ Started /\ bud.faults = MaxFaults /\ ~Ended) =>
 
 (* O2: what p's user has been handed is what the peer's user sent: unchanged, in order, at most once ... *)
 InOrderNoDup == \A p \in Parties :
-   IF bud.faults = MaxFaults THEN IsPrefix(dlv[p], sent[Peer(p)]) ELSE IsSubSeq(dlv[p], sent[Peer(p)])
+   IF bud.faults = MaxFaults /\ bud.requery = MaxRequery THEN IsPrefix(dlv[p], sent[Peer(p)]) ELSE IsSubSeq(dlv[p], sent[Peer(p)])
 (* ... and everything, once the network is quiet (no faults, nobody ended the conversation). *)
 AllDelivered == (Quiet /\ bud.faults = MaxFaults /\ ~Ended) => \A p \in Parties : dlv[p] = sent[Peer(p)]
+(* re-keying (Requery configurations): once the network is quiet again both sides are encrypted ... *)
+RequeryEndsEncrypted == (Quiet /\ bud.requery < MaxRequery /\ bud.faults = MaxFaults) => (Enc("a") /\ Enc("b") /\ \A p \in Parties : cv[p].auth = "none")
+(* ... but this fails (documented counterexample): a message sent after the peer's query arrived and before the new AKE
+   completed carries key ids the peer has already dropped and is rejected *)
+RequeryLosesNothing == (Quiet /\ bud.faults = MaxFaults) => \A p \in Parties : dlv[p] = sent[Peer(p)]
 (* generateData never runs out of key slots nor asks for a key it does not have *)
 SlotsSuffice == \A p \in Parties : cv[p].st = "enc" => SlotFor(cv[p], cv[p].myKeyId - 1, cv[p].theirKeyId).ok
 SlotBound == \A p \in Parties : Cardinality(cv[p].slots) <= 4
